@@ -136,8 +136,8 @@ pub fn midi_replay(t: &crate::replay::Text, prop: &str, rep: &mut Report) -> Res
 fn ribbon_twin(h: &ribbon::History, seed: u64, prop: &str) -> Result<Option<(usize, String)>, String> {
     guard(|| {
         let c = h.cfg;
-        let mut a = ribbon::make(c.rate, c.softpot, c.dropper, c.pullup)?;
-        let mut b = ribbon::make(c.rate, c.softpot, c.dropper, c.pullup)?;
+        let mut a = c.build()?;
+        let mut b = c.build()?;
         let mut r = Rng::new(seed);
         let n_ops = h.ops.len();
         for (i, op) in h.ops.iter().enumerate() {
